@@ -70,7 +70,8 @@ def check_bytes(sc, ls):
         size = 0
         for bi in sect.byte_intervals:
             size = size + bi.size
-        eng.check(size == exp.length, "C01 total size of %s" % sect.name)
+        eng.check(size == exp.length + sc.uninit.get(sect.name, 0),
+                  "C01 total size of %s (the zero-fill tail behind the stored bytes is part of the section)" % sect.name)
 
 
 def _bases(sc):
